@@ -81,3 +81,9 @@ SPECS["C16"] = dict(level="exploration", server=True, server_race_thorough=True,
     rule="per-field boundary domains on every implemented RPC and the three unimplemented ones: names (live / unknown / wrong kind / empty / 5 segments / empty project / empty id / garbage / very long), 32-bit integers (min, -1, 0, 1, max), durations (nil, negative, huge negative, zero, 1 ns, 10^4 years, invalid nanos, max), ack-id lists (live, stale, foreign, garbage, empty string, empty, mixed, unknown, duplicate), update masks (nil, empty, unknown, repeated, every known path with an empty body), optional blocks absent/empty, seek targets, payloads, page sizes/tokens: all single-field deviations from a valid base request plus seeded pairwise merges; 12 StreamingPull scripts. One case = one request; non-trivial = it deviates from the valid base; distinct = distinct (rpc, field, class).",
     parts=[dict(name="binary", binary="rigp", pkg="rigp", test="TestC16", shards={"quick": 8, "thorough": 16}),
            dict(name="state", binary="rigv", pkg="rigv", test="TestC16state", shards={"quick": 8, "thorough": 16})])
+
+SPECS["C17"] = dict(level="exploration", assumptions=["SQLite stores durations as Go duration text (exact to the nanosecond); the PostgreSQL `interval` column path is exercised only through the codec's text parser, against a reference printer of PostgreSQL's 'postgres' IntervalStyle (months = 0)", "strings with months/years are only checked for deterministic parsing (30-day months / 365-day years are the code's own convention)"],
+    min_relevant={"quick": 5000, "thorough": 100000},
+    rule="(1) request-side model: subscriptions created with random accepted configurations (durations 1 ns .. 73 years incl. sub-microsecond values, label maps incl. empty/unicode, optional blocks present / absent / empty, defaults) are read back through the create response, Get and List and compared field by field; then sequences of 1-6 UpdateSubscription calls, each with a random 1-3 path mask and a body that carries NEW values for ALL fields: exactly the masked fields may change. (2) codec: Scan(Value(d)) == d for a grid plus seeded random durations, and ParsePostgreSQLInterval(reference PostgreSQL text for (days, microseconds)) == days*24h + microseconds for a grid plus seeded random pairs. Non-trivial: every case; distinct = distinct history / value.",
+    parts=[dict(name="config", binary="rigv", pkg="rigv", test="TestC17", shards={"quick": 8, "thorough": 16}),
+           dict(name="codec", binary="rigu", pkg="rigu", test="TestC17codec", race=False, shards={"quick": 4, "thorough": 16})])
